@@ -260,3 +260,50 @@ _run_before_r7 = run
 def run(ctx):
     _run_before_r7(ctx)
     r7_numeric_tokens(ctx)
+
+
+def r8_no_truncating_char_casts(ctx):
+    """a character of the input is never narrowed before it is classified"""
+    rid = "C15.R8"
+    ctx.rule(rid, "no function reachable from the command parser or the move-text parser narrows a `char` to an 8/16-bit integer (`c as u8` keeps only the low byte: U+0165 would read as 'e'); the matcher is exercised on every run by a known narrowing cast elsewhere in the workspace", floor=2)
+    from ..callgraph import CallGraph
+    from ..expr import operand_ty
+    prog = ctx.prog
+    cg = CallGraph(prog)
+    entries = [k for k in ("inkayaku_uci::uci::<UciMove as FromStr>::from_str", "inkayaku_core::constants::square::Square::from_chars",
+                           P + "parse", "inkayaku_core::constants::piece::Piece::from_char") if k in prog.fns]
+    if len(entries) < 3:
+        ctx.lost(rid, "UciMove::from_str / Square::from_chars / CommandParser::parse")
+        return
+    reach, _ = cg.reachable(entries)
+    # the FEN sub-reader is C12's domain (its square text is pre-filtered by the FEN pattern)
+    narrow = ("u8", "i8", "u16", "i16")
+    sites, control = [], 0
+    for k, f in prog.fns.items():
+        if not k.startswith("inkayaku_") or f.get("test"):
+            continue
+        for b in f["blocks"]:
+            if b["cleanup"]:
+                continue
+            for s in b["stmts"]:
+                rv = s["rv"]
+                if rv["op"] == "cast" and operand_ty(f, rv["a"][0]) == "char" and rv["cast_ty"] in narrow:
+                    control += 1
+                    if k in reach and not k.startswith("inkayaku_core::fen::") and "fen" not in k.rsplit("::", 1)[-1]:
+                        sites.append((k, s["line"], rv["cast_ty"], f))
+    ctx.ob(rid, "matcher-control", control >= 1, "" if control >= 1 else "the cast matcher found no narrowing char cast anywhere in the workspace (the known one in square_shift_from_fen_unchecked is gone: re-confirm the matcher)", "")
+    seen = set()
+    for k, line, ty, f in sites:
+        if k in seen:
+            continue
+        seen.add(k)
+        ctx.ob(rid, "narrowing|%s" % k, False, "%s narrows an input character with `as %s`: every code point congruent to the expected letter modulo 256 is accepted as that letter (non-ASCII text is misread instead of rejected)" % (f["display"], ty), ctx.where(f, line))
+    ctx.ob(rid, "no-narrowing-cast-in-parsers", not sites, "" if not sites else "%d narrowing cast(s) of input characters" % len(sites), "", sample={"functions_scanned": len(reach), "narrowing_casts_elsewhere": control})
+
+
+_run_before_r8 = run
+
+
+def run(ctx):
+    _run_before_r8(ctx)
+    r8_no_truncating_char_casts(ctx)
